@@ -18,6 +18,7 @@ import (
 	"compress/gzip"
 	"net/http"
 	"strconv"
+	"strings"
 )
 
 // ResponseFilter determines if the response should be gzipped.
@@ -45,12 +46,16 @@ type SkipCompressedFilter struct{}
 // ShouldCompress returns true if served file is not already compressed
 // encodings via https://developer.mozilla.org/en-US/docs/Web/HTTP/Headers/Content-Encoding
 func (n SkipCompressedFilter) ShouldCompress(w http.ResponseWriter) bool {
-	switch w.Header().Get("Content-Encoding") {
-	case "gzip", "compress", "deflate", "br", "zstd":
-		return false
-	default:
-		return true
+	// every line of the field and every coding listed in it counts, in any letter case
+	// and under its legacy name; only "identity" says that nothing was applied
+	for _, line := range w.Header().Values("Content-Encoding") {
+		for _, coding := range strings.Split(line, ",") {
+			if c := strings.ToLower(strings.TrimSpace(coding)); c != "" && c != "identity" {
+				return false
+			}
+		}
 	}
+	return true
 }
 
 // ResponseFilterWriter validates ResponseFilters. It writes
